@@ -535,7 +535,7 @@ def clone_value(I, v):
     return v
 
 
-@model(r'^<(?:u8|u16|u32|u64|u128|usize|i32|bool|char|Vec<.*>|String|Cow<.*>|Option<.*>|&.*|\[.*\]|std::net::Ipv[46]Addr|BTreeMap<.*>|HashMap<.*>|HashSet<.*>|Box<.*>|\(.*\)) as Clone>::clone$')
+@model(r'^<(?:u8|u16|u32|u64|u128|usize|i32|bool|char|Vec<.*>|String|Cow<.*>|Option<.*>|&.*|\[.*\]|(?:std::net::)?Ipv[46]Addr|(?:std::net::)?IpAddr|BTreeMap<.*>|HashMap<.*>|HashSet<.*>|Box<.*>|\(.*\)) as Clone>::clone$')
 def m_clone(I, fr, callee, m, args):
     v = I.load_ref(args[0])
     return clone_generic(I, callee, v)
@@ -652,10 +652,15 @@ def eq_dispatch(I, x, y):
 
 
 def map_eq(I, a, b):
-    raise Unsupported("map equality")
+    if a.kind.startswith('BTree') and b.kind.startswith('BTree'):
+        if len(a.entries) != len(b.entries):
+            return z3.BoolVal(False)
+        return z3.And([z3.BoolVal(True)] + [z3.And(eq_dispatch_deep(I, ka, kb), eq_dispatch_deep(I, va, vb))
+                                             for (ka, va), (kb, vb) in zip(a.entries, b.entries)])
+    raise Unsupported("hash map equality")
 
 
-@model(r'^<(?:Option|std::result::Result)<.*> as PartialEq>::(eq|ne)$|^<\(.*\) as PartialEq>::(eq|ne)$')
+@model(r'^<(?:Option|std::result::Result|BTreeMap|BTreeSet)<.*> as PartialEq>::(eq|ne)$|^<\(.*\) as PartialEq>::(eq|ne)$')
 def m_opt_eq(I, fr, callee, m, args):
     op = m.group(1) or m.group(2)
     e = eq_dispatch_deep(I, I.load_ref(args[0]), I.load_ref(args[1]))
@@ -671,6 +676,8 @@ def eq_dispatch_deep(I, a, b):
         return z3.And([z3.BoolVal(True)] + [eq_dispatch_deep(I, x, y) for x, y in zip(a.f, b.f)])
     if isinstance(a, (VecV, SliceRef)):
         return I.seq_eq(a, b)
+    if isinstance(a, MapV) and isinstance(b, MapV):
+        return map_eq(I, a, b)
     return eq_dispatch(I, a, b)
 
 
